@@ -266,6 +266,7 @@ func StrLen(d *Decls, s Term) Term {
 // type codes for interface dynamic types
 var typeCodes = map[string]int{}
 var typeCodeNames []string
+var typeByCode = map[int]types.Type{}
 
 func typeCode(t types.Type) int {
 	k := typeKey(t)
@@ -275,6 +276,7 @@ func typeCode(t types.Type) int {
 	c := len(typeCodes) + 1
 	typeCodes[k] = c
 	typeCodeNames = append(typeCodeNames, k)
+	typeByCode[c] = t
 	return c
 }
 
